@@ -3,6 +3,7 @@
 if [ -n "$VP_RUN_REPO" ]; then
   sed -i "s#\"/repo/#\"$VP_RUN_REPO/#" harness/Cargo.toml
   export VERIF_REPO="$VP_RUN_REPO"
+  [ -f "$VP_RUN_REPO/Cargo.lock" ] || cp /repo/Cargo.lock "$VP_RUN_REPO/Cargo.lock"   # not tracked in /repo
 fi
 ./setup || exit 1
 for i in 01 02 03 04 05 06 07 08 09 10 11 12 13 14 15 16 17 18 19 20; do
